@@ -12,7 +12,7 @@ UV_EOF, UV_ENOBUFS = -4095, -105
 # keys of the two defects repaired by /repo commit 34f0ffa (kept only to name a regression)
 FIXED_IPC = "ipc_premature_eof_after_fd_message"
 FIXED_NONIPC = "pipe_premature_eof_after_fd_message_nonipc"
-HARNESS_ONLY = "WGHQUKMBVYO"
+HARNESS_ONLY = "WGHQUKMBVYOD"
 
 
 # --------------------------------------------------------------------------
@@ -92,6 +92,26 @@ def gen_case(rng, tcp=False):
         return "R=0"
 
     n = rng.randint(4, 22)
+    if ipc and rng.random() < 0.25:
+        # real kernel answers only: exact-fit buffers (1, 2, 4, 8), data-only messages in front of
+        # descriptor-carrying ones, everything sent before the loop runs: several recvmsg per pass
+        a = rng.choice([1, 2, 4, 8])
+        total = 0
+        msgs = []
+        for _ in range(rng.randint(2, 7)):
+            if rng.random() < 0.5:
+                k = a * rng.choice([1, 1, 2, 3])
+                msgs.append("w%d" % k)
+            else:
+                k = rng.choice([a, a, 1, 2 * a, a + 1])
+                msgs.append("g%d" % k)
+            total += k
+        if not any(m[0] == "g" for m in msgs):
+            msgs.append("g%d" % a); total += a
+        tail = rng.choice([[], [], ["h"], ["q"]])
+        ops = ["S%d" % rng.choice([1, 2, 3])] + msgs + tail + ["R"] * (total // (32 * a) + 3)
+        return "1 ; %s ; %s ; %d ; " % (" ".join(ops), " | ".join(rng.choice(["", "", "", "T S1"])
+                                                                  for _ in range(rng.choice([0, 0, 4]))), a)
     if shape < 0.14:
         # the handle stays polled (POLLOUT, a big write nobody reads) while not reading - after UV_EOF,
         # after uv_read_stop, after a read error - then the peer closes (reset: unread data) or hangs up
@@ -222,6 +242,12 @@ FIXED = [
     "0 ; S1 w3 R R T V w5 q R R R ; ; 64 ; ",
     "0 ; S1 V w3 R R w3 R R q R R R ; ; 64 ; p e104",
     "0 ; S1 w3 h R R R V R=28 R=24 R=16 R=5 R ; ; 64 ; ",
+    # several recvmsg in one pass, the first fills the buffer exactly with a descriptor-free chunk, the next
+    # message carries a descriptor: control space must be offered again on every call
+    "1 ; S1 w8 g1 R R ; ; 8 ; ",
+    "1 ; S1 w4 g4 w4 g2 g4 R R R ; ; 4 ; ",
+    "1 ; S1 w1 g1 w1 g1 g1 R R ; ; 1 ; ",
+    "1 ; S1 w2 w2 g2 g2 q R R R ; ; 2 ; ",
     # 64 KiB buffers and more than one buffer of data
     "0 ; S1 w70000 w70000 q R R R R R ; ; 65536 ; ",
     "1 ; S1 w70000 g3 w70000 q R R R R R R ; ; 65536 ; ",
@@ -247,6 +273,20 @@ def monitor(case, line, ipc, tcp=False):
     if line.startswith("DIED"):
         return (None, "the process died: " + line)
     trace = line.split(";")[0].split()
+    # recvmsg on an IPC pipe must offer control space on every call (msg_controllen is value-result)
+    secs = line.split(";")
+    if len(secs) == 3:
+        first = None
+        for i, ent in enumerate(secs[2].split()):
+            clen, cnn, iovlen, mflags, ctrunc = [int(x) for x in ent.split(",")]
+            if first is None:
+                first = clen
+            if cnn != 1 or clen < 24 or clen != first or iovlen != 1 or mflags != 0:
+                return (None, "recvmsg call #%d on the IPC pipe was offered msg_controllen=%d (first call: %d), "
+                              "msg_control %s, msg_iovlen=%d, msg_flags=%d: no room for the descriptors of the "
+                              "message" % (i + 1, clen, first, "set" if cnn else "NULL", iovlen, mflags))
+            if ctrunc:
+                return (None, "recvmsg call #%d returned MSG_CTRUNC: descriptors were discarded" % (i + 1))
     written = delivered = ksum = 0
     out = None                      # outstanding alloc result (id, len)
     quiet, why = True, "before uv_read_start"
@@ -266,8 +306,16 @@ def monitor(case, line, ipc, tcp=False):
         elif k == "G":
             # a descriptor-carrying message: the descriptors travel with its first segment, and
             # read/recvmsg stops behind the segment that carried them
-            fd_msgs.append((written, int(a)))
+            if int(a) > written:
+                fd_msgs.append((written, int(a)))
             written = int(a)
+        elif k == "D":
+            # descriptors on the handle (accepted + queued) = descriptor-carrying messages whose first
+            # byte the kernel has handed out
+            exp = sum(1 for lo, hi in fd_msgs if lo < ksum)
+            if int(a) != exp:
+                return (None, "uv_pipe_pending_count() is %d, but %d descriptor-carrying message(s) have been "
+                              "read (descriptors lost or duplicated)" % (int(a), exp))
         elif k == "H":
             pass
         elif k in "UV":
@@ -391,7 +439,7 @@ def monitor(case, line, ipc, tcp=False):
 def model_input(case, impl_line, tcp):
     """the model gets the case plus the answers the wrappers actually gave"""
     parts = impl_line.split(";")
-    if len(parts) != 2:
+    if len(parts) != 3:
         return None
     c = case.split(";")
     toks = parts[0].split()
@@ -603,7 +651,7 @@ def main():
         chk.cov["read_callbacks_observed"] = sum(1 for t in tr for e in t if e[0] == "r")
         chk.cov["alloc_callbacks_observed"] = sum(1 for t in tr for e in t if e[0] == "A")
         chk.cov["eof_callbacks_observed"] = sum(1 for t in tr for e in t if e[0] == "r" and ":-4095:" in e)
-        chk.cov["syscall_answers_logged"] = sum(len(l.split(";")[1].split()) for l in a if l.count(";") == 1)
+        chk.cov["syscall_answers_logged"] = sum(len(l.split(";")[1].split()) for l in a if l.count(";") == 2)
         chk.cov["poll_masks_seen"] = sorted({e for t in tr for e in t if e[0] == "P"})
         chk.cov["shape_counts"] = shape_counts(tr)
     tgen = [gen_case(chk.rng, tcp=True) for _ in range(40000 if thorough else 1500)]
